@@ -14,16 +14,16 @@ import (
 // obligations
 
 type obligation struct {
-	name  string
-	kind  string // safe, pre, post, inv-init, inv-keep, dec, frame, lock, iface, assert, cover
-	fn    string // top-level function under verification
-	guard string
-	cond  string
-	show  []showTerm // terms to evaluate in a counter-model
-	cover bool       // must be satisfiable (vacuity guard)
-	pos   string     // file:line for humans (never part of the name)
-	goPost       string   // contract expression to re-check natively in a replay
-	goPostParams []string // names its free identifiers use for the parameters, by position
+	name         string
+	kind         string // safe, pre, post, inv-init, inv-keep, dec, frame, lock, iface, assert, cover
+	fn           string // top-level function under verification
+	guard        string
+	cond         string
+	show         []showTerm // terms to evaluate in a counter-model
+	cover        bool       // must be satisfiable (vacuity guard)
+	pos          string     // file:line for humans (never part of the name)
+	goPost       string     // contract expression to re-check natively in a replay
+	goPostParams []string   // names its free identifiers use for the parameters, by position
 }
 
 type showTerm struct {
@@ -33,49 +33,53 @@ type showTerm struct {
 
 // gen holds one verification unit (one top-level function with everything inlined into it).
 type gen struct {
-	w          *world
-	top        *ssa.Function
-	decls      []string
-	asserts    []string
-	obls       []obligation
-	fresh      int
-	unmodelled map[string]int
-	trusted    map[string]bool // trusted contracts / intrinsics used
-	assumedCon map[string]bool // callee contracts assumed at call sites
-	shaDecl    map[string]bool
-	ufDecl     map[string]bool
-	occ        map[string]int
-	lite       bool // L0: no heap contents
-	instrs     int
-	inlineSeq  int
-	replay     *replayInfo
-	specDefs   map[string]bool // spec function unfoldings already emitted (by call term)
-	specDepth  int
-	strConsts  []string
-	closures   map[string]*closureInfo
-	specStack  map[*ssa.Function]bool
-	absDivMod  bool
-	entryHB    string
+	w             *world
+	top           *ssa.Function
+	decls         []string
+	asserts       []string
+	obls          []obligation
+	fresh         int
+	unmodelled    map[string]int
+	trusted       map[string]bool // trusted contracts / intrinsics used
+	assumedCon    map[string]bool // callee contracts assumed at call sites
+	shaDecl       map[string]bool
+	ufDecl        map[string]bool
+	occ           map[string]int
+	lite          bool // L0: no heap contents
+	instrs        int
+	inlineSeq     int
+	replay        *replayInfo
+	specDefs      map[string]bool // spec function unfoldings already emitted (by call term)
+	specDepth     int
+	strConsts     []string
+	closures      map[string]*closureInfo
+	specStack     map[*ssa.Function]bool
+	absDivMod     bool
+	maxDepth      int
+	excluded      []string
+	loopHavocAll  map[*ssa.BasicBlock]bool // loops whose body contains a havoc of the whole heap (from a first pass)
+	loopHavocSeen map[*ssa.BasicBlock]bool // discovered in this pass
+	entryHB       string
 }
 
 func newGen(w *world, top *ssa.Function, lite bool) *gen {
 	return &gen{w: w, top: top, lite: lite, unmodelled: map[string]int{}, trusted: map[string]bool{}, assumedCon: map[string]bool{},
-		shaDecl: map[string]bool{}, ufDecl: map[string]bool{}, occ: map[string]int{}, specDefs: map[string]bool{}, closures: map[string]*closureInfo{}, specStack: map[*ssa.Function]bool{}}
+		shaDecl: map[string]bool{}, ufDecl: map[string]bool{}, occ: map[string]int{}, specDefs: map[string]bool{}, closures: map[string]*closureInfo{}, specStack: map[*ssa.Function]bool{}, maxDepth: maxInlineDepth, loopHavocAll: map[*ssa.BasicBlock]bool{}, loopHavocSeen: map[*ssa.BasicBlock]bool{}}
 }
 
 var heapKindsAll = []struct{ name, sort, zero string }{
-	{"HB", "(_ BitVec 8)", "#x00"},                // bytes
-	{"HW", "(_ BitVec 64)", z64},                  // ints/bools/floats (zero extended)
-	{"HPr", "Int", "0"},                           // pointer ref (also maps, funcs, chans)
-	{"HPo", "(_ BitVec 64)", z64},                 // pointer off
-	{"HSr", "Int", "0"},                           // slice/string ref
-	{"HSo", "(_ BitVec 64)", z64},                 //   off
-	{"HSl", "(_ BitVec 64)", z64},                 //   len
-	{"HSc", "(_ BitVec 64)", z64},                 //   cap
-	{"HIt", "Int", "0"},                           // interface type tag
-	{"HIr", "Int", "0"},                           //   ref
-	{"HIo", "(_ BitVec 64)", z64},                 //   off
-	{"GL", "Int", "0"},                            // ghost: lock state per mutex location (0 free, 1 W, 2.. R count+1)
+	{"HB", "(_ BitVec 8)", "#x00"}, // bytes
+	{"HW", "(_ BitVec 64)", z64},   // ints/bools/floats (zero extended)
+	{"HPr", "Int", "0"},            // pointer ref (also maps, funcs, chans)
+	{"HPo", "(_ BitVec 64)", z64},  // pointer off
+	{"HSr", "Int", "0"},            // slice/string ref
+	{"HSo", "(_ BitVec 64)", z64},  //   off
+	{"HSl", "(_ BitVec 64)", z64},  //   len
+	{"HSc", "(_ BitVec 64)", z64},  //   cap
+	{"HIt", "Int", "0"},            // interface type tag
+	{"HIr", "Int", "0"},            //   ref
+	{"HIo", "(_ BitVec 64)", z64},  //   off
+	{"GL", "Int", "0"},             // ghost: lock state per mutex location (0 free, 1 W, 2.. R count+1)
 }
 
 const z64 = "#x0000000000000000"
